@@ -158,6 +158,10 @@ def normalize_slice(idx, dim):
             if stop is not None and start is not None and stop < start:
                 stop = start
         elif step < 0:
+            if start < 0:
+                # start lies before the first element (``indices`` clamps it
+                # to -1): nothing is selected.  Keeping -1 would mean "last".
+                return slice(0, 0, step)
             if start >= dim - 1:
                 start = None
             if stop < 0:
